@@ -20,6 +20,8 @@ const (
 	volumeDescriptorBodySize             = sectorSize - volumeDescriptorHeaderSize
 	pathTableItemsLimit                  = 0x10000
 	maxDirectoryEntrySize                = 0xFF // length of entry encoded as byte
+	volumeIdentifierSize                 = 32
+	volumeSetIdentifierSize              = 128
 
 	volumeTypeBoot          byte = 0
 	volumeTypePrimary       byte = 1
@@ -222,7 +224,7 @@ func (e pathTableEntry) encodeOrdered(enc *iso9660encoder, order binary.AppendBy
 func (pvd primaryVolumeDescriptorBody) encode(enc *iso9660encoder) {
 	enc.appendByte(0) // reserved
 	enc.appendStrA(pvd.SystemIdentifier, 32)
-	enc.appendStrD(pvd.VolumeIdentifier, 32)
+	enc.appendStrD(pvd.VolumeIdentifier, volumeIdentifierSize)
 	enc.appendZeroes(8) // reserved
 	enc.appendUint32LSBMSB(uint32(pvd.VolumeSpaceSize))
 	enc.appendString(pvd.EscapeSequences, 32, 0) // for joliet
@@ -238,7 +240,7 @@ func (pvd primaryVolumeDescriptorBody) encode(enc *iso9660encoder) {
 
 	enc.appendEncodable(pvd.RootDirectoryEntry, 34)
 
-	enc.appendStrD(pvd.VolumeSetIdentifier, 128)
+	enc.appendStrD(pvd.VolumeSetIdentifier, volumeSetIdentifierSize)
 	enc.appendStrA(pvd.PublisherIdentifier, 128)
 	enc.appendStrA(pvd.DataPreparerIdentifier, 128)
 	enc.appendStrA(pvd.ApplicationIdentifier, 128)
@@ -379,6 +381,16 @@ func mangleStrD(in string, joliet bool) stringD {
 	}
 
 	return stringD(ret)
+}
+
+// truncateStrD cuts (already mangled) string to fit it to the field of given size.
+// Size must be even: joliet strings have two bytes per character.
+func truncateStrD(in stringD, size int) stringD {
+	if len(in) > size {
+		return in[:size]
+	}
+
+	return in
 }
 
 func mangleStrD1(in string, joliet bool) stringD1 {
